@@ -38,8 +38,10 @@ template <int S> struct Runner {
     Lcg g((uint64_t)c.args.seed + 5);
     Mat gdC(n, D); Eigen::VectorXd gdT(N); for (int r = 0; r < n; ++r) for (int d = 0; d < D; ++d) gdC(r, d) = g.dyadic(); for (int i = 0; i < N; ++i) gdT(i) = g.dyadic();
     const Grads PG = sp.propagateGrad(gdC, gdT);
+    const Grads PGE = sp.propagateGrad(sp.getEnergyPartialGradByCoeffs(), sp.getEnergyPartialGradByTimes());
     // ---- start-time shift: polynomials unchanged (bitwise), knot times shifted ----
-    for (double sh : {3.25, -1024.5}) {
+    for (double sh : {3.25, -1024.5, 1.7e9 + 0.3}) {
+      if (dyadic_exact && sh > 1e9) continue;   // the far shift is used with the non-dyadic durations below
       Prob q = p; q.t0 = p.t0 + sh; Sp s2 = build<S, D>(q);
       expect_bits("shift-coeffs", p, matvec(s2.getTrajectory().getCoefficients()), matvec(C));
       ++c.st.comparisons;
@@ -122,16 +124,19 @@ template <int S> struct Runner {
       if (worst > thr(S) * 10) fail("reversal-curve", p, fmt("normalised deviation %.3g", worst));
       double er = E != 0 ? std::fabs(s2.getEnergy() - E) / std::fabs(E) : std::fabs(s2.getEnergy());
       ++c.st.comparisons; c.st.obs(fmt("reversal-energy/%s", order_name(S)), er); if (er > 1e-7) fail("reversal-energy", p, fmt("%.17g vs %.17g", s2.getEnergy(), E));
-      // mirrored gradients
-      Grads g2 = s2.getEnergyGrad(); const int nb = nbasis(S, N);
+      // mirrored gradients (closed form, and the partials propagated through the adjoint)
+      for (int route = 0; route < 2; ++route) {
+      Grads g2 = route == 0 ? s2.getEnergyGrad() : s2.propagateGrad(s2.getEnergyPartialGradByCoeffs(), s2.getEnergyPartialGradByTimes()); const int nb = nbasis(S, N);
+      const Grads &EGr = route == 0 ? EG : PGE;
       double sc = 0, e2 = 0, sct = 0, e2t = 0;
-      for (int i = 0; i < N; ++i) { sct = std::max(sct, std::fabs(EG.times(i)) * p.T[i]); e2t = std::max(e2t, std::fabs(g2.times(N - 1 - i) - EG.times(i)) * p.T[i]); }
-      for (int d = 0; d < D; ++d) { auto a = grads_data_vec<S>(g2, N, d), b = grads_data_vec<S>(EG, N, d);
+      for (int i = 0; i < N; ++i) { sct = std::max(sct, std::fabs(EGr.times(i)) * p.T[i]); e2t = std::max(e2t, std::fabs(g2.times(N - 1 - i) - EGr.times(i)) * p.T[i]); }
+      for (int d = 0; d < D; ++d) { auto a = grads_data_vec<S>(g2, N, d), b = grads_data_vec<S>(EGr, N, d);
         for (int bb = 0; bb < nb; ++bb) { int mb; double sgn = 1; double cs = 1; if (bb <= N) mb = N - bb; else { int r = bb - (N + 1), side = r / (S - 1), kk = r % (S - 1) + 1; mb = (N + 1) + (1 - side) * (S - 1) + (kk - 1); sgn = (kk & 1) ? -1.0 : 1.0; double Tadj = side == 0 ? p.T[0] : p.T[N - 1]; for (int q2 = 0; q2 < kk; ++q2) cs *= Tadj; }
           sc = std::max(sc, std::fabs(b[bb]) * cs); e2 = std::max(e2, std::fabs(a[mb] * sgn - b[bb]) * cs); } }
       double G = std::max(std::max(sc, sct), std::fabs(E));
       double res = G > 0 ? std::max(e2, e2t) / G : 0; ++c.st.comparisons; c.st.obs(fmt("reversal-energy-grad/%s", order_name(S)), res);
-      if (res > thr(S) * 10) fail("reversal-energy-grad", p, fmt("normalised deviation %.3g", res));
+      if (res > thr(S) * 10) fail(route == 0 ? "reversal-energy-grad" : "reversal-propagated-grad", p, fmt("normalised deviation %.3g", res));
+      }
     }
   }
   void run_case(int N, const std::vector<double> &T) {
@@ -139,6 +144,9 @@ template <int S> struct Runner {
     int nb = nbasis(S, N);
     for (int b = 0; b < nb; ++b) { set_basis_data(p, S, b); run_problem(p, true); }
     set_generic_data(p, (uint64_t)c.args.seed * 1000 + N); run_problem(p, true);
+    // non-dyadic durations (x 0.7) and a start time far from zero: the polynomials must not depend on the start time at all (bitwise),
+    // which is only a meaningful statement when start + durations is NOT exactly representable
+    { Prob q = p; for (double &t : q.T) t *= 0.7; q.t0 = 0.3; run_problem(q, false); set_basis_data(q, S, N % nb); run_problem(q, false); }
   }
 };
 
